@@ -4,7 +4,8 @@ import common as C
 RULE = ("exhaustive: all 9 device types x all 4 device classes constructed for real (36; then again in reverse and shuffled orders, since a "
         "guard must not depend on earlier constructions), every type's category ports from "
         "both port tables, the set of model codes; non-trivial = distinct (class, type, accepted) triples and distinct "
-        "(type, ports) rows")
+        "(type, ports) rows; the constructions, the port rows and the codes are looked at a second time after the library has handled "
+        "broadcast traffic and datagrams whose decoding fails half-way")
 ASSUMPTIONS = ["the tables the theorems are about are regenerated from the working tree on every run (Gen.Tables, Gen.Guards)",
                "that the class guards behave as their AST reads is checked by constructing all 36 (class, type) pairs"]
 
@@ -70,6 +71,45 @@ CODES = C.Kind("codes", impl=_impl_codes, model=lambda _: "codes", judge=lambda 
 KINDS = {"construct": CONSTRUCT, "ports": PORTS, "codes": CODES}
 
 
+def _traffic(ctx):
+    import bgen as B
+    import bridgeharness as BH
+    import props.c05 as c05
+    import props.c07 as c07
+    rng = ctx.rng
+    c05._sync_types()
+    pool = B.encode_all([B.gen_device(rng, f) for f in ("t1", "t1", "shutter", "shutter", "thermo") for _ in range(3)])
+    try:
+        wk = BH.default_ports()
+        if len(wk) == 4 and all(BH.bindable(p) for p in wk):
+            for sq in c07.wellknown_sequences(rng, pool, 2):
+                c07._impl(sq)
+        for _ in range(3):
+            c07._impl(c07.gen_sequence(rng, pool))
+    except Exception as e:  # noqa
+        ctx.notes.append(f"traffic before the second look could not be produced: {type(e).__name__}")
+    # datagrams that pass the gate and then fail somewhere inside the decoding (unknown direction, undecodable name, unknown enum
+    # value), fed last so that whatever they leave behind is still there
+    for v in pool:
+        b = bytearray.fromhex(v["dgram"])
+        for (i, val) in ((137, 0x77), (138, 0x77), (42, 0xff), (140, 0xff), (133, 0x01)):
+            if i < len(b):
+                c = bytearray(b)
+                c[i] = val
+                if i == 42:
+                    c[43] = 0xfe
+                BH.parse_direct(bytes(c).hex())
+    # and, last of all, one whose decoding certainly fails after the gate (a shutter with an unknown direction code)
+    last = "none"
+    for v in pool:
+        if v["family"] == "shutter":
+            c = bytearray.fromhex(v["dgram"])
+            c[137:139] = b"\x77\x77"
+            last = BH.parse_direct(bytes(c).hex())
+    if not last.startswith("raise"):
+        ctx.notes.append("no datagram whose decoding fails half-way could be produced for the second look: " + last[:60])
+
+
 def streams(ctx):
     import aioswitcher.device as d
     types = [t.name for t in d.DeviceType]
@@ -84,6 +124,12 @@ def streams(ctx):
         again += q
     ctx.run_cases(CONSTRUCT, "constructions-in-other-orders", again, exhaustive=False, sample_every=97)
     ctx.run_cases(PORTS, "ports-of-every-type", types, exhaustive=True)
+    # the tables and guards are facts about the library, not about what it has been doing: look again after it has handled traffic -
+    # broadcasts of every family through a bridge on the well-known and on other ports, and datagrams whose decoding fails half-way
+    _traffic(ctx)
+    ctx.run_cases(CONSTRUCT, "constructions-after-traffic", pairs, exhaustive=True, sample_every=13)
+    ctx.run_cases(PORTS, "ports-after-traffic", types, exhaustive=True)
+    ctx.run_cases(CODES, "model-codes-after-traffic", [1], exhaustive=True)
     ctx.run_cases(CODES, "model-codes", [0], exhaustive=True)
 
 
